@@ -112,7 +112,7 @@ def build_statement(src: str, form: str):
         _tmpdir = tempfile.mkdtemp(prefix='verif_child_')
     _ncall += 1
     if form == 'path':
-        p = Path(_tmpdir) / f'script_{_ncall}.py'
+        p = Path(_job_dir or _tmpdir) / f'script_{_ncall}.py'
         p.write_text(src)
         return p, None
     if form == 'code':
@@ -130,7 +130,63 @@ def build_statement(src: str, form: str):
     raise ValueError(form)
 
 
+_job_dir = None
+
+
+class import_env:
+    """The import environment of a job with `siblings` / `shadows` (progen.IMPORT_PROGRAMS): files next to the script,
+    files in a directory at the FRONT of sys.path, the script's directory appended at the END of sys.path (as an
+    application that lists it in PYTHONPATH would have it).  `direct=True` adds what `python script.py` does: the script's
+    directory at sys.path[0].  Everything is undone on exit (sys.path, sys.modules)."""
+
+    def __init__(self, job: dict, direct: bool):
+        self.job, self.direct = job, direct
+
+    def __enter__(self):
+        global _tmpdir, _job_dir, _ncall
+        if _tmpdir is None:
+            _tmpdir = tempfile.mkdtemp(prefix='verif_child_')
+        _ncall += 1
+        d = Path(_tmpdir) / f'job_{_ncall}'
+        site = Path(_tmpdir) / f'job_{_ncall}_site'
+        for base, files in ((d, self.job.get('siblings') or {}), (site, self.job.get('shadows') or {})):
+            base.mkdir(parents=True, exist_ok=True)
+            for rel, text in files.items():
+                (base / rel).parent.mkdir(parents=True, exist_ok=True)
+                (base / rel).write_text(text)
+        self.saved_path = list(sys.path)
+        self.saved_modules = set(sys.modules)
+        sys.path.insert(0, str(site))
+        sys.path.append(str(d))
+        if self.direct:
+            sys.path.insert(0, str(d))
+        importlib.invalidate_caches()
+        _job_dir = str(d)
+        return self
+
+    def __exit__(self, *a):
+        global _job_dir
+        _job_dir = None
+        sys.path[:] = self.saved_path
+        for m in set(sys.modules) - self.saved_modules:
+            if m.startswith('verif_'):
+                sys.modules.pop(m, None)
+        importlib.invalidate_caches()
+
+
 def run_job(job: dict) -> dict:
+    if job.get('siblings') is not None or job.get('shadows') is not None:
+        with import_env(job, direct=False):
+            res = _run_job(job, with_reference=False)
+        if job.get('reference'):
+            from . import reference
+            with import_env(job, direct=True):
+                res['reference'] = reference.run_reference(job['src'], job.get('form', 'str'), build_statement)
+        return res
+    return _run_job(job, with_reference=True)
+
+
+def _run_job(job: dict, with_reference: bool) -> dict:
     from nextline.spawned import PdbCommand, RunArg, main, set_queues
     from nextline.types import RunNo
 
@@ -188,7 +244,7 @@ def run_job(job: dict) -> dict:
     res['stdout'] = buf.getvalue()
     if hasattr(policy, 'summary'):
         res['policy_summary'] = policy.summary()
-    if job.get('reference'):
+    if job.get('reference') and with_reference:
         from . import reference
         res['reference'] = reference.run_reference(job['src'], job.get('form', 'str'), build_statement)
     return res
